@@ -280,6 +280,7 @@ type w9Wrun struct {
 	Parsed    *Container // the whole output
 	Header    *Container // what NewEncoderFor wrote
 	HdrWrites int
+	ModelWrites bool // one Write for the header and four per block: the granularity the model's stateful fault run has
 	Closed    []w9Wgroup
 	Pending   [][]byte
 	Closes    []bool
@@ -382,8 +383,9 @@ func w9RunFaultFree(h *w9Whist, fail func(key, what string)) *w9Wrun {
 		fail("header-codec", fmt.Sprintf("header names codec %q, asked for %q", c.Codec, h.Codec))
 	}
 	w9CompareBlocks(c, res.Closed, fail)
+	res.ModelWrites = res.HdrWrites == 1 && len(res.W.chunks)-1 == 4*len(c.Blocks)
 	// chunk level: count varint, length varint, stored payload, sync
-	if res.HdrWrites == 1 && len(res.W.chunks)-1 == 4*len(c.Blocks) {
+	if res.ModelWrites {
 		for bi := 0; bi < (len(res.W.chunks)-1)/4; bi++ {
 			ch := res.W.chunks[1+4*bi : 5+4*bi]
 			cnt, rest, err := readVarint(ch[0])
@@ -601,6 +603,13 @@ func w9DescribeHist(h *w9Whist) map[string]any {
 }
 
 func w9CountHist(r *Run, h *w9Whist, run *w9Wrun) {
+	if run.Parsed != nil {
+		if run.ModelWrites {
+			r.Count("write-granularity/as-modelled")
+		} else {
+			r.Count("write-granularity/other")
+		}
+	}
 	r.Count("codec/" + h.Codec)
 	r.Count(fmt.Sprintf("block_size/%d", h.Size))
 	r.Count("type/" + []string{"EncW0", "EncW1", "EncW2"}[h.Kind])
@@ -680,6 +689,20 @@ func runC09(r *Run) {
 		}
 		h.Ops = append(h.Ops, w9GenRecord(r, h.Kind, 6000), w9Wop{Flush: true})
 		hs = append(hs, h)
+	}
+	// blocks whose stored length, or whose total length with count, length and sync marker, sits
+	// just below a power of two (a writer that assembles small blocks in a fixed scratch buffer,
+	// or switches paths at such a size, has its boundary there)
+	pows := []int{1024, 4096, 8192}
+	if r.Thorough() {
+		pows = []int{256, 512, 1024, 2048, 4096, 8192, 16384, 32768, 65536}
+	}
+	for _, pw := range pows {
+		for d := -2; d <= 24; d++ {
+			h := &w9Whist{Kind: 1, Codec: "null", Size: 1 << 20}
+			h.Ops = append(h.Ops, w9GenRecord(r, 1, pw-d), w9Wop{Flush: true}, w9GenRecord(r, 1, 5), w9Wop{Flush: true})
+			hs = append(hs, h)
+		}
 	}
 	c09Huge(r)
 	seen := map[string]bool{}
@@ -1138,8 +1161,12 @@ func c16Fault(r *Run, h *w9Whist, ff *w9Wrun, desc map[string]any, key, comp, op
 		fail("spurious-error", "no Write failed but a call returned an error")
 	}
 
+	lens := make([]string, len(chunks))
+	for i, c := range chunks {
+		lens[i] = w9CNat(len(c))
+	}
 	id := r.Add(cApp("KFault", w9CUB(ff.Header.SchemaJSON), w9CUB([]byte(ff.Header.Codec)), w9CUB(sync), comp, cZ(int64(h.Size)), opsTerm,
-		w9CNat(k), w9CNat(partial), w9CUB(w.acc), cBool(failed)),
+		cList(lens), w9CNat(k), w9CNat(partial), w9CUB(w.acc), cBool(failed)),
 		map[string]any{"history_key": key, "fail_at_write": k, "partial": partial, "accepted": len(w.acc), "failed": failed, "writes_fault_free": nW},
 		fmt.Sprintf("%s/k%d/p%d", key, k, partial))
 	for _, f := range fails {
